@@ -605,6 +605,14 @@ func monitorC04(g *groundTruth, c monCfg, attempts []fAttempt, gkOf func(group s
 						just = true
 					}
 				}
+				// at-least-once window (C20): the previous delivery was still in flight when a reload or restart replaced the
+				// dispatcher, and this one was sent before it had been answered - nothing could have been logged yet. (Once
+				// it has been answered it is logged even though its flush was cancelled, so a later send is not excused.)
+				for _, r := range g.reloads {
+					if r >= p.At && r <= d.At && p.Done >= d.At {
+						just = true
+					}
+				}
 				if !just {
 					return &violation{"unjustified-repeat-notification",
 						fmt.Sprintf("%s/%s group %s: notification at %v repeats the one at %v (%v < repeat_interval %v) with no new firing alert, no newly resolved alert and no quiet moment in between: prev %s ; this %s", c.receiver, key, gk, d.At, p.At, d.At-p.At, c.repeat, p.String(), d.String())}
